@@ -92,7 +92,7 @@ class E6(ARig):
         raise KeyError(who)
 
 
-def _engine_run(ch, callers, offsets, R, window, faulty_verbs, fixed=None, noise=None, batch=False):
+def _engine_run(ch, callers, offsets, R, window, faulty_verbs, fixed=None, noise=None, batch=False, cancel=None):
     rig = E6(ch, window)
     rig.loop.batch_choices_enabled = batch
     t_base = rig.loop.time()
@@ -134,6 +134,13 @@ def _engine_run(ch, callers, offsets, R, window, faulty_verbs, fixed=None, noise
     with rig.loop.running():
         tasks = [rig.loop.create_task(caller(w, o), name=f"HARNESS:caller:{w}") for w, o in zip(callers, offsets)]
     horizon = max(offsets) + len(callers) * R * (TIMEOUT + PAUSE + 1.0) + 5.0
+    cancelled = set()
+    if cancel is not None:
+        # the client gives up on one caller (asyncio.wait_for around a facade call expires): its task is cancelled at that
+        # moment, wherever it is - queued for the lock, in flight, pausing
+        cw, ct = cancel
+        rig.loop.call_at(rig.loop.time() + ct, tasks[callers.index(cw)].cancel)
+        cancelled.add(cw)
     rig.loop.run_for(horizon, lambda: all(t.done() for t in tasks))
     why = None
     # ---- oracle ---------------------------------------------------------------------
@@ -157,9 +164,15 @@ def _engine_run(ch, callers, offsets, R, window, faulty_verbs, fixed=None, noise
                         arrived.append((t + d + rig.net.latency, who))
     for t in tasks:
         if not t.done():
-            why = ("liveness", f"caller {t.get_name()} did not complete within {horizon}s")
+            why = ("liveness", f"caller {t.get_name()} did not complete within {horizon}s"
+                               f"{' after ' + str(sorted(cancelled)) + ' was cancelled' if cancelled else ''}")
+        elif t.cancelled():
+            if t.get_name().split(":")[-1] not in cancelled:
+                why = ("raised", f"caller {t.get_name()} was cancelled by the library")
         elif t.exception() is not None:
             why = ("raised", f"caller {t.get_name()} raised {t.exception()!r}")
+    callers_all = callers
+    callers = tuple(w for w in callers if w not in cancelled or w in results)
     if why is None:
         for who in callers:
             Rw = 1 if who == "ping" else R
@@ -210,7 +223,7 @@ def _engine_run(ch, callers, offsets, R, window, faulty_verbs, fixed=None, noise
             for w in hw:
                 if w[0] != f"HARNESS:caller:{who}" and w[2] + 1e-9 < t < w[3] - 1e-9:
                     why = ("overlap", f"{who} transmitted at {t-t_base:.2f} while {w[0]} was waiting")
-    if why is None and len(callers) > 1:
+    if why is None and len(callers) > 1 and not cancelled:
         # service order = arrival order at the lock
         order_in = sorted(callers, key=lambda w: (enter[w], callers.index(w)))
         first_tx = {}
@@ -222,7 +235,7 @@ def _engine_run(ch, callers, offsets, R, window, faulty_verbs, fixed=None, noise
             why = ("order", f"callers entered {order_in} but were served {order_out}")
     if why is None and (lib.LOG.records or rig.loop.exceptions):
         why = ("engine", f"errors: {lib.LOG.records[:2]} {rig.loop.exceptions[:2]}")
-    obs = core.digest([[w, results.get(w) is not None, round(done_at.get(w, -1) - t_base, 3)] for w in callers])
+    obs = core.digest([[w, results.get(w) is not None, round(done_at.get(w, -1) - t_base, 3)] for w in callers_all])
     rig.close()
     return why, obs
 
@@ -234,16 +247,17 @@ def _engine_job(job):
         noise = job[0][5]
     (callers, offsets, R, window, faulty) = job[0][:5]
     batch = len(job[0]) > 6 and bool(job[0][6])
+    cancel = job[0][7] if len(job[0]) > 7 else None
 
     def body(ch):
-        why, obs = _engine_run(ch, callers, offsets, R, window, faulty, noise=noise, batch=batch)
+        why, obs = _engine_run(ch, callers, offsets, R, window, faulty, noise=noise, batch=batch, cancel=cancel)
         viol = []
         if why:
             fv = [(k, c) for k, n, c in ch.trace if c]
             viol.append((f"C06|engine|{why[0]}|n={len(callers)}",
                          f"callers {callers} at offsets {offsets} R={R}, deviations {fv}: {why[1]}",
                          {"mode": "engine", "callers": list(callers), "offsets": list(offsets), "R": R,
-                          "window": window, "faulty": list(faulty), "noise": noise, "batch": batch, "prefix": [list(p) for p in ch.trace]}))
+                          "window": window, "faulty": list(faulty), "noise": noise, "batch": batch, "cancel": list(cancel) if cancel else None, "prefix": [list(p) for p in ch.trace]}))
         return {"violations": viol, "obs": obs, "end": obs}
 
     return explore.run_with(prefix, body)
@@ -550,6 +564,12 @@ def run(ctx):
         plans.append((("status",), (0.0,), R, 0.0, ("status",)))
     plans.append((("status", "ping"), (0.0, 0.05), 2, 0.0, ("status",)))
     plans.append((("version", "status"), (0.0, 0.05), 2, 0.0, ("status",)))
+    # one caller is cancelled by its client at every phase (queued, in flight, timing out, pausing): the others complete
+    for cw, others in (("version", ("version", "channel", "press")), ("channel", ("version", "channel", "press")),
+                       ("status", ("status", "ping")), ("press", ("watercare", "press"))):
+        offs = (0.0, 0.05, 0.1)[:len(others)]
+        for ct in (0.0, 0.02, 0.07, 0.12, 0.2, 1.0, 3.9, 4.05, 5.0, 6.1):
+            plans.append((others, offs, 2, 0.0, (others[0],), None, False, (cw, ct)))
     triples = [("version", "press", "watercare"), ("ping", "channel", "press")]
     for tr in triples:
         for o1, o2 in itertools.product(OFFSETS[:3] if ctx.quick else OFFSETS, repeat=2):
@@ -682,8 +702,10 @@ def replay(ctx, data):
     m = data.get("mode")
     if m == "engine":
         plan = (tuple(data["callers"]), tuple(data["offsets"]), data["R"], data["window"], tuple(data["faulty"]))
-        if data.get("noise") or data.get("batch"):
+        if data.get("noise") or data.get("batch") or data.get("cancel"):
             plan = plan + (tuple(data["noise"]) if data.get("noise") else None, bool(data.get("batch")))
+            if data.get("cancel"):
+                plan = plan + ((data["cancel"][0], data["cancel"][1]),)
         res = _engine_job((plan, [tuple(p) for p in data["prefix"]]))
         ctx.merge_violations(res["violations"])
     elif m == "full":
